@@ -136,6 +136,11 @@ def ladders():
         ("bandit/core/manager.py", "BanditManager._parse_file"),
         ("bandit/core/manager.py", "BanditManager._execute_ast_visitor"),
         ("bandit/core/manager.py", "BanditManager.output_results"),
+        ("bandit/core/manager.py", "BanditManager.discover_files"),
+        ("bandit/core/manager.py", "_get_files_from_dir"),
+        ("bandit/core/manager.py", "_is_file_included"),
+        ("bandit/core/test_set.py", "BanditTestSet._load_tests"),
+        ("bandit/core/test_set.py", "BanditTestSet._load_builtins"),
         ("bandit/core/manager.py", "BanditManager.populate_baseline"),
         ("bandit/core/tester.py", "BanditTester.run_tests"),
         ("bandit/core/config.py", "BanditConfig.__init__"),
